@@ -74,6 +74,7 @@ class Sut:
         self.g.add_writer(self.rec)
         self.ctx = []          # live context managers (not deep-copyable)
         self.made = []         # context-manager objects obtained but not entered yet
+        self.refs = {}         # caller-owned objects handed to several calls: an argument ["ref", name] passes the same object again
         self.model = None
 
     @property
@@ -91,7 +92,7 @@ class Sut:
         """Apply one op to the real builder. Returns (exception or None,
         list of emitted byte chunks)."""
         name = op[0]
-        args = [mkpoint(a) for a in (op[1] if len(op) > 1 else [])]
+        args = [self.refs[a[1]] if (isinstance(a, list) and len(a) == 2 and a[0] == "ref") else mkpoint(a) for a in (op[1] if len(op) > 1 else [])]
         kwargs = {k: mkpoint(v) for k, v in (op[2] if len(op) > 2 else {}).items()}
         exc = None
         try:
